@@ -30,8 +30,8 @@ import (
 
 type c04RotEl struct {
 	group string
-	name string
-	run  func() string
+	name  string
+	run   func() string
 }
 
 func c04RotEval(src string, res []fhir.Resource, opts ...fhirpath.EvaluateOption) (out string) {
